@@ -1386,8 +1386,14 @@ class AstEval:
         #
         item = arg.items[item_idx]
         manager = await self.aeval(item.context_expr)
-        enter = getattr(type(manager), enter_attr)
-        exit_func = getattr(type(manager), exit_attr)
+        try:
+            enter = getattr(type(manager), enter_attr)
+            exit_func = getattr(type(manager), exit_attr)
+        except AttributeError as exc:
+            protocol = "asynchronous context manager" if enter_attr.startswith("__a") else "context manager"
+            raise TypeError(
+                f"'{type(manager).__name__}' object does not support the {protocol} protocol"
+            ) from exc
         value = await self.call_func(enter, enter_attr, manager)
         hit_except = False
         val = None
